@@ -190,6 +190,13 @@ def o2_every_offer_compared(F, r):
         callees = [tt["callee"] for _, tt in mir.calls(cfn)] if cfn else []
         if not any(x.endswith("is_comparable_with_best_known") for x in callees) or len([x for x in callees if not x.startswith("core::")]) != 1:
             filt_ok = False
+    if names == ["new"] or names[-1:] == ["new"] or names[-1:] == ["with_capacity"]:
+        ok_loop, why_loop = _loop_form_batch(F, fn, t["args"][1])
+        if ok_loop:
+            r.ok("Rosomaxa::add_all batch", "elite batch = loop over the offered individuals, pushed under the comparability test only")
+        else:
+            r.fail("Rosomaxa::add_all batch", f"batch handed to the elite is not `offered individuals filtered only by is_comparable_with_best_known` ({why_loop})", F.loc(ra, t["ln"]))
+        return
     if from_param and filt_ok and "collect" in names:
         r.ok("Rosomaxa::add_all batch", f"elite batch = individuals.{'.'.join(reversed(names))}, only filter is the comparability test")
     else:
@@ -330,9 +337,17 @@ def o5_merge_best(F, r):
     m = F.find1("decompose_search::merge_best")
     fn = F.fns[m]
     src = [int(k) for k, v in fn["names"].items() if v == "source_solution"]
-    it = oe.Interp(F, m, {1: oe.sym("decomposed"), 2: oe.ref(oe.sym("orig")), 3: oe.sym("acc")}, fresh=True)
+    loop_blocks = set().union(*mir.natural_loops(fn).values()) if mir.natural_loops(fn) else set()
+    has_loop = any(t["callee"].endswith("Iterator::next") and bi in loop_blocks for bi, t in mir.calls(fn))
+    paths = []
+    for length in ((0, 1) if has_loop else (None,)):
+        it = oe.Interp(F, m, {1: oe.sym("decomposed"), 2: oe.ref(oe.sym("orig")), 3: oe.sym("acc")}, fresh=True, max_steps=3000 if has_loop else 800)
+        it.drop_panics = True          # `assert!(registry.use_route(..))` inside the loop: the panicking path returns no merged solution
+        if length is not None:
+            oe.script_next(it, length, make=lambda i: oe.some(oe.ref(oe.sym(f"route{i}"))))   # `for route_ctx in source.routes.iter()` evaluated over 0 and 1 routes
+        paths += it.explore()
     n = 0
-    for p in it.explore():
+    for p in paths:
         cmp_ = [a for a in p.assumptions if len(a) == 3 and isinstance(a[2], str) and a[2] in "LEG" and a[0] != "switch"]
         if not cmp_:
             r.fail("merge_best", "no comparison of the decomposed and the original partial solution on this path (not decidable)", F.loc(m))
@@ -422,6 +437,68 @@ def s1_selection_size_clamped(F, r):
             else:
                 r.fail(inst, "a selection/population size computed from a float ratio is cast to usize without a lower clamp of 1: it can round to 0 and "
                              "select() returns nothing from a non-empty population", F.loc(fid, s["ln"]))
+
+
+DROPPING = ("adapters::filter::", "adapters::filter_map::", "adapters::skip::", "adapters::take::", "adapters::skip_while::", "adapters::take_while::",
+            "adapters::step_by::", "adapters::map_while::")
+
+
+def _loop_form_batch(F, fn, batch_op):
+    """loop form of `individuals.iter().filter(is_comparable).map(..).collect()`: a Vec filled by `push` inside ONE loop over the offered individuals (parameter 2),
+    every push guarded only by the loop's own `next()` and the comparability test"""
+    roots = [v for k, v, p in mir.trace(fn, batch_op) if k == "local" or k == "call"]
+    lset = set()
+    for k, v, p in mir.trace(fn, batch_op):
+        if k == "call":
+            lset.add(fn["bbs"][v]["t"]["dest"]["l"] if isinstance(fn["bbs"][v]["t"].get("dest"), dict) else None)
+    lset.discard(None)
+    if not lset:
+        return False, "batch vector not found"
+    pushes = []
+    for bi, t in mir.calls(fn):
+        if t["callee"].split("::")[-1] == "push" and t["args"] and any(k == "local" and v in lset or k == "call" and fn["bbs"][v]["t"].get("dest", {}).get("l") in lset for k, v, p in mir.trace(fn, t["args"][0])):
+            pushes.append(bi)
+    if not pushes:
+        return False, "nothing is pushed into the batch"
+    loops = mir.natural_loops(fn)
+    for pb in pushes:
+        inl = [(h, body) for h, body in loops.items() if pb in body]
+        if len(inl) != 1:
+            return False, "push not inside exactly one loop"
+        h, body = inl[0]
+        nexts = [(bi, t) for bi, t in mir.calls(fn) if bi in body and t["callee"] == "core::iter::traits::iterator::Iterator::next"]
+        if len(nexts) != 1:
+            return False, "loop does not advance exactly one iterator"
+        nb, nt = nexts[0]
+        ity = nt["ga"][0] if nt["ga"] else ""
+        if any(d in ity for d in DROPPING):
+            return False, "the loop's iterator drops elements"
+        src, crossed = mir.deep_leaves(fn, nt["args"][0])
+        if not any(k == "arg" and v == 2 for k, v, p in src):
+            return False, "the loop does not walk the offered individuals"
+        # every switch of the loop that separates the header from the push tests next() or the comparability call
+        for sb in sorted(body):
+            tt = fn["bbs"][sb]["t"]
+            if tt["k"] != "switch" or not mir.dominates(fn, sb, pb) or sb == pb:
+                continue
+            dd = [d for d in mir.defs(fn).get(tt["o"].get("l"), []) if d[0] == "s"] if mir.is_place(tt["o"]) else []
+            if len(dd) == 1 and dd[0][3]["r"]["k"] == "discr" and mir.is_place(dd[0][3]["r"]["o"][0]) and not dd[0][3]["r"]["o"][0]["p"] and dd[0][3]["r"]["o"][0]["l"] == nt["dest"]["l"]:
+                continue        # the loop's own test: discriminant of next()'s result
+            inner, neg = tt["o"], False
+            dn = [d for d in mir.defs(fn).get(inner.get("l"), []) if d[0] == "s"] if mir.is_place(inner) else []
+            if len(dn) == 1 and dn[0][3]["r"]["k"] == "un" and dn[0][3]["r"].get("op") == "Not":
+                inner, neg = dn[0][3]["r"]["o"][0], True
+            tr_ = mir.trace(fn, inner)
+            direct = [fn["bbs"][v]["t"]["callee"] for k, v, p in tr_ if k == "call"]
+            if direct and all(c.endswith("is_comparable_with_best_known") for c in direct) and len(tr_) == len(direct):
+                # the comparability test itself: the push must lie on the `comparable` side only
+                zero = [tb for v, tb in tt["tg"] if v == 0]
+                not_comparable_edge = (tt["else"] if neg else (zero[0] if zero else None))
+                if not_comparable_edge is not None and pb in mir.reach(fn, [not_comparable_edge], blocked=[h]):
+                    return False, "individuals that are NOT comparable with the best known are pushed"
+                continue
+            return False, f"the push is also guarded by another test (line {tt.get('ln', '?')})"
+    return True, ""
 
 
 def run(ctx):
